@@ -335,3 +335,119 @@ def has_fact(facts, kind, **kw):
                 continue
             return f
     return None
+
+
+# --------------------------------------------------------------------------------------
+# may-derive slices (PROV template, existential form)
+
+
+def _rv_operands(rv):
+    """(places, operands) read by an rvalue"""
+    k = rv[0]
+    if k == "use":
+        return [], [rv[1]]
+    if k in ("ref", "raw"):
+        return [rv[2]], []
+    if k == "cast":
+        return [], [rv[2]]
+    if k == "bin":
+        return [], [rv[2], rv[3]]
+    if k == "un":
+        return [], [rv[2]]
+    if k == "discr":
+        return [rv[1]], []
+    if k == "agg":
+        return [], list(rv[2])
+    if k == "repeat":
+        return [], [rv[1]]
+    return [], []
+
+
+def derives(fn, operand_or_place, maxn=400):
+    """Backward may-slice of a value inside one function.  Returns (paths, calls): the set of
+    normalised access paths rooted at arguments / upvars / constants the value may be computed
+    from (through copies, borrows, casts, aggregates, and the arguments of every call whose
+    result flows in), and the set of Call objects on the way."""
+    from .core import norm_path
+
+    paths, calls = set(), []
+    seen = set()
+    work = []
+
+    def push_place(pl):
+        local, proj = pl
+        work.append((local, tuple(map(str, proj_key(proj)))))
+        for p in proj:
+            if isinstance(p, list) and p and p[0] == "i":
+                work.append((p[1], ()))
+
+    def proj_key(proj):
+        return [repr(p) for p in proj]
+
+    def push_op(op):
+        pl = op_place(op)
+        if pl is not None:
+            push_place(pl)
+        else:
+            c = op_const(op)
+            if c is not None:
+                paths.add("const:%s" % c[1])
+
+    if isinstance(operand_or_place, (list, tuple)) and operand_or_place and operand_or_place[0] in ("c", "m", "k"):
+        push_op(operand_or_place)
+    else:
+        push_place(operand_or_place)
+    # remember projections for reporting: record apath of every place visited
+    n = 0
+    while work:
+        local, _pk = work.pop()
+        if local in seen:
+            continue
+        seen.add(local)
+        n += 1
+        if n > maxn:
+            break
+        if 1 <= local <= fn.argc:
+            continue
+        for (b, i, rv, partial) in fn.defs().get(local, []):
+            if rv[0] == "callret":
+                call = rv[1]
+                calls.append(call)
+                for a in call.args:
+                    pl = op_place(a)
+                    if pl is not None:
+                        paths.add(norm_path(fn.apath(pl, transparent=False)))
+                    push_op(a)
+            else:
+                pls, ops = _rv_operands(rv)
+                for pl in pls:
+                    paths.add(norm_path(fn.apath(pl, transparent=False)))
+                    push_place(pl)
+                for op in ops:
+                    pl = op_place(op)
+                    if pl is not None:
+                        paths.add(norm_path(fn.apath(pl, transparent=False)))
+                    push_op(op)
+    return paths, calls
+
+
+def always_reaches(fn, start, through, exits):
+    """every non-unwind path from the entry of block `start` passes a block in `through`
+    before reaching any block in `exits` (paths that end in a panic/abort are ignored)"""
+    ok, leaked = must_pass(fn, [start], exits, through)
+    return ok
+
+
+def closure_captures(fn, closure_operand):
+    """access paths (in `fn`) of the values captured by the closure passed as an operand"""
+    from .core import norm_path
+
+    l = op_local(closure_operand)
+    sd = fn.single_def(l) if l is not None else None
+    if not sd or sd[2][0] != "agg" or not (isinstance(sd[2][1], list) and sd[2][1][0] == "closure"):
+        return None, None
+    caps = []
+    for op in sd[2][2]:
+        pl = op_place(op)
+        caps.append(norm_path(fn.apath(pl)) if pl is not None else None)
+    return sd[2][1][1], caps
